@@ -442,6 +442,11 @@ def wrap_decorators(ctx) -> None:
             want[slot] = builder if slot in DECORATOR_OWN[name] else f'{parent}.{slot.capitalize()}'
         ctx.check(bound == want, 'C03.wrap', op.ref, f'decorator `{name}` fills {sorted(DECORATOR_OWN[name])} with the decorated actor and inherits the other slots from the parent (wanted {want}, found {bound})', st, key=f'decorator:{name}')
     ctx.floor('C03.wrap-decorators', n, 4)
+    # decorating an existing operator re-uses its origin builder *object* unless new parameters are given: the apply/train
+    # twins of a chained decoration are grouped by builder identity, a reset() copy would make them two groups
+    dec = prog.func(f'{WRAP}:Decorator.__call__').nested('decorator')
+    bs = [a for a in core.walk_local(dec.node) if isinstance(a, ast.Assign) and core.src(a.targets[0]) == 'builder' and 'Origin' in core.src(a.value)]
+    ctx.check(len(bs) == 1 and core.src(bs[0].value) == 'inner.Origin.reset(**kwargs) if kwargs else inner.Origin', 'C03.wrap', dec, f'chained decoration keeps the origin builder itself when no parameters are overridden (`{core.src(bs[0].value) if bs else None}`)', bs[0] if bs else dec.node, key='decorator:origin-builder')
     meta = prog.func(f'{WRAP}:Meta.__new__')
     pairs = {}
     for d in ast.walk(meta.node):
